@@ -33,7 +33,7 @@ func generate(run *common.Run, n int) []*Case {
 }
 
 func (g *genCfg) genAny(id string) *Case {
-	switch x := g.rng.Intn(23); {
+	switch x := g.rng.Intn(24); {
 	case x < 8:
 		return g.genCall("s2h", id)
 	case x < 15:
@@ -50,6 +50,8 @@ func (g *genCfg) genAny(id string) *Case {
 				return c
 			}
 		}
+	case x < 22:
+		return g.genSpreadViaFuncValue(id)
 	}
 	return g.genVarCase(id)
 }
@@ -98,7 +100,12 @@ func (g *genCfg) genVariadicCtx(id string) *Case {
 			c.Spread = true
 			c.Args = append(c.Args, ng.gen(c.Sig.In[n], 0))
 			c.Forms = append(c.Forms, "var")
+			if r.Intn(5) == 0 {
+				// `m(a, nil...)` (F07-16, repaired by 0b75d2f)
+				c.Args[n], c.Forms[n] = &Val{T: c.Sig.In[n], Nil: true}, "const"
+			}
 		}
+		g.setRebind(c)
 		return c
 	}
 	e := g.one("int", "string", "hp.Pt", "[]int", "interface{}", "float64", "*hp.Pt", "uint8", "hp.Color", "map[string]int")
@@ -124,6 +131,10 @@ func (g *genCfg) genVariadicCtx(id string) *Case {
 		c.Spread = true
 		c.Args = append(c.Args, ng.gen(ins[n], 0))
 		c.Forms = append(c.Forms, "var")
+		if r.Intn(5) == 0 {
+			// `hp.F(a, nil...)` (F07-16, repaired by 0b75d2f)
+			c.Args[n], c.Forms[n] = &Val{T: ins[n], Nil: true}, "const"
+		}
 	}
 	return c
 }
@@ -184,6 +195,33 @@ func (g *genCfg) genBuiltinInMultiReturn(id string) *Case {
 	return c
 }
 
+// genSpreadViaFuncValue: `fv(cb, xs...)` through a variable of a script-written function type holding a host function, with a
+// fixed argument that needs preparation (a declared function, an interpreted value for a host interface): the shape of F07-17,
+// repaired by 449969c and kept in the in-domain stream.
+func (g *genCfg) genSpreadViaFuncValue(id string) *Case {
+	r := g.rng
+	var ins []*TypeD
+	ins = append(ins, g.one("func() int", "func(int) int", "fmt.Stringer", "error", "io.Writer", "func(string) (int, error)"))
+	if r.Intn(2) == 0 {
+		ins = append(ins, g.one("int", "string", "hp.Pt"))
+	}
+	ins = append(ins, typeByID("[]"+g.one("int", "string", "hp.Pt", "interface{}").ID))
+	c := g.call("s2h", id, funcType(ins, []*TypeD{typeByID("int")}, true))
+	c.Callee = []string{"fntyped", "fntyped", "fnvar"}[r.Intn(3)]
+	c.Ctx = g.genCtx(c.Sig)
+	if c.Ctx == "blank" {
+		c.Ctx = "define"
+	}
+	for tries := 0; tries < 8 && !c.Spread; tries++ {
+		c.Args, c.Forms = nil, nil
+		g.genArgs(c)
+	}
+	if c.Args[0].T.Kind == KFunc && c.Args[0].Fn != nil {
+		c.Forms[0] = "decl"
+	}
+	return c
+}
+
 func (g *genCfg) one(ids ...string) *TypeD { return typeByID(ids[g.rng.Intn(len(ids))]) }
 
 // call builds a call case from a signature; args and body are generated.
@@ -209,64 +247,16 @@ func (g *genCfg) genFor(cls, id string) *Case {
 	switch cls {
 	case "method-value-variadic":
 		c := g.genMethodCase(id)
-		c.Recv = "mvalue"
+		c.Recv = []string{"mvalue", "mvalue", "sptrmv"}[r.Intn(3)]
+		if c.Recv == "sptrmv" && c.Ctx == "go" {
+			c.Ctx = "stmt"
+		}
+		g.setRebind(c)
 		for k, a := range c.Args {
 			pt := paramTypeOf(c, k)
 			if pt.Kind == KBasic && !(c.Spread && k == len(c.Args)-1) && a.T.Kind == KBasic {
 				c.Forms[k] = "const"
 			}
-		}
-		return c
-	case "method-value-script-pointer":
-		c := g.genMethodCase(id)
-		c.Recv = "sptrmv"
-		if c.Ctx == "go" {
-			c.Ctx = "stmt"
-		}
-		return c
-	case "host-recv-rebound":
-		c := g.genMethodCase(id)
-		if c.Method == "Apply" || c.Method == "String" {
-			return nil
-		}
-		c.Rebind = true
-		if r.Intn(2) == 0 {
-			c.Recv = "mvalue"
-			if c.Ctx == "go" {
-				c.Ctx = "stmt"
-			}
-		} else {
-			c.Recv, c.Ctx, c.Blank = "ptr", "defer", nil
-		}
-		return c
-	case "spread-nil-literal":
-		c := g.genVariadicCtx(id)
-		if !c.Spread {
-			return nil
-		}
-		n := len(c.Args) - 1
-		c.Args[n] = &Val{T: c.Args[n].T, Nil: true}
-		c.Forms[n] = "const"
-		return c
-	case "spread-via-func-value":
-		var ins []*TypeD
-		ins = append(ins, g.one("func() int", "func(int) int", "fmt.Stringer", "error", "io.Writer", "func(string) (int, error)"))
-		if r.Intn(2) == 0 {
-			ins = append(ins, g.one("int", "string", "hp.Pt"))
-		}
-		ins = append(ins, typeByID("[]"+g.one("int", "string", "hp.Pt", "interface{}").ID))
-		c := g.call("s2h", id, funcType(ins, []*TypeD{typeByID("int")}, true))
-		c.Callee = []string{"fntyped", "fntyped", "fnvar"}[r.Intn(3)]
-		c.Ctx = g.genCtx(c.Sig)
-		if c.Ctx == "blank" || c.Ctx == "go" || c.Ctx == "defer" {
-			c.Ctx = "define"
-		}
-		for tries := 0; tries < 8 && !c.Spread; tries++ {
-			c.Args, c.Forms = nil, nil
-			g.genArgs(c)
-		}
-		if c.Args[0].T.Kind == KFunc && c.Args[0].Fn != nil {
-			c.Forms[0] = "decl"
 		}
 		return c
 	case "hostvar-nil-pointer":
